@@ -73,4 +73,10 @@ type CompactionTask struct {
 
 	// Output file path template
 	OutputPathTemplate string
+
+	// DropTombstones is set by the strategy when no table outside the inputs can hold an
+	// older version of a key of the task: every table on the target level or deeper is an
+	// input. Only then may a deletion marker be left out of the outputs; otherwise the deleted
+	// key would come back from the older table.
+	DropTombstones bool
 }
